@@ -24,7 +24,7 @@ RULE = ("one run = GFA1 (with lengths and specified overlaps) or GFA2 document, 
 PROBES = ["dollar_in_view", "gfa1_to_gfa2", "gfa2_to_gfa1", "asym_cigar", "containment_offset",
           "path_reversed_link", "circular_path", "single_segment_path", "named_edge", "unnamed_edge",
           "internal_edge_dropped", "line_conversion_refused", "there_and_back", "self_link",
-          "gfa2_only_content_refused"]
+          "gfa2_only_content_refused", "gfa1_only_overlap_refused"]
 
 
 def ps(p, length):
@@ -150,11 +150,25 @@ def gen(streams, tier, i):
                     out.append("\t".join(f))
                 lines = out
             gfa2only = True
+    nocp = False
+    vlevel = cfg.choice([1, 2, 3])
+    if src == "gfa1" and not view_only and cfg.random() < 0.1:
+        # an overlap with operations that only GFA1 has (= X, same lengths): the link or containment has no
+        # GFA2 counterpart; conversion refuses it or drops it, it never writes it into an E line
+        cand = [i_ for i_, ln in enumerate(lines) if ln.split("\t")[0] in ("L", "C") and "M" in ln.split("\t")[6 if ln[0] == "C" else 5]]
+        if cand:
+            i_ = cfg.choice(cand)
+            f = lines[i_].split("\t")
+            c = 6 if f[0] == "C" else 5
+            f[c] = f[c].replace("M", cfg.choice(["=", "X"]), 1)
+            lines = lines[:i_] + ["\t".join(f)] + lines[i_ + 1:]
+            nocp = True
+            vlevel = cfg.choice([0, 1, 2, 3])
     sr = streams.get("schedule")
     order, mode = hist.schedule(sr, lines)
     how = cfg.choice(["to_s", "to_s", "to_obj", "per_line", "per_line_rev"])
-    return {"cfg": {"version": src, "order": mode, "how": how, "vlevel": cfg.choice([1, 2, 3]), "view_only": view_only,
-                    "gfa2only": gfa2only},
+    return {"cfg": {"version": src, "order": mode, "how": how, "vlevel": vlevel, "view_only": view_only,
+                    "gfa2only": gfa2only, "no_counterpart": nocp},
             "lines": order, "ops": [{"op": "convert"}]}
 
 
@@ -216,6 +230,24 @@ def run(scn, st):
         return       # C01/C03's business
     g = o.value
     st.sched(digest([digest(sorted(lines)), lines == sorted(lines), cfg["how"]]))
+    if cfg.get("no_counterpart"):
+        st.count("probe.gfa1_only_overlap_refused")
+        st.count("oracle.no_counterpart")
+        for how in ("to_s", "to_obj", "per_line"):
+            t = convert_text(g, "gfa2", how)
+            if not t.ok:
+                if t.kind != "gfapy":
+                    raise core.Violation("conversion-foreign-exception", "GFA1->GFA2 (%s) of a document with a GFA1-only "
+                                         "overlap raised %s" % (how, t.excname), exc=t.excname, frame=t.frame)
+                continue
+            r = core.call(gfapy.Gfa, t.value, vlevel=3, version="gfa2")
+            if not r.ok:
+                raise core.Violation("no-counterpart-mistranslated",
+                                     "GFA1->GFA2 (%s, level %d): an overlap with GFA1-only operations was written into "
+                                     "GFA2 text that does not parse at level 3 (%s): %r" %
+                                     (how, cfg["vlevel"], r.excname, [x for x in t.value.split("\n") if x[:1] == "E"][:3]),
+                                     how=how)
+        return
     if src == "gfa1":
         run_1_to_2(m, g, cfg, st)
     else:
